@@ -181,11 +181,12 @@ Qed.
 
 (* ---------- clean characters ---------- *)
 
-Definition special : list ascii := ["("; ")"; ","; ":"; ";"; "'"; """"; "["; "]"; "_"; "/"; " "; "009"; "010"].
+Definition special : list ascii := ["("; ")"; ","; ":"; ";"; "'"; """"; "["; "]"; "/"; " "; "009"; "010"].
 
 Lemma clean_char_facts : forall c, clean_char c = true ->
   ~ In c special /\ is_space c = false /\ is_punct c = false /\ is_blank c = false /\ is_newline c = false
-  /\ unmodelled_char c = false.
+  /\ unmodelled_char c = false /\ Ascii.eqb c "'" = false
+  /\ ((nat_of_ascii c <? 32) && negb (is_blank c) || (126 <? nat_of_ascii c)) = false.
 Proof.
   intros [b0 b1 b2 b3 b4 b5 b6 b7];
     destruct b0, b1, b2, b3, b4, b5, b6, b7; vm_compute; intros H; try discriminate;
@@ -235,7 +236,7 @@ Definition relem : Type := (nat * str * option str * list (option str))%type.
 
 Definition render (e : relem) : str :=
   let '(o, n, l, cl) := e in
-  repeat "(" o ++ n ++ plen l ++ flat_map (fun x => ")" :: plen x) cl.
+  repeat "(" o ++ print_name n ++ plen l ++ flat_map (fun x => ")" :: plen x) cl.
 
 Definition forget (e : relem) : elem := let '(o, n, l, cl) := e in (o, n, length cl).
 
